@@ -34,7 +34,7 @@ Definition class_of (w : wreq) : option proto :=
 
 (* header names whose presence the rewriting may change *)
 Definition ign (p : proto) : list string :=
-  match p with PH1 => ["host"; "user-agent"] | PH2 => "user-agent" :: h2_illegal end.
+  match p with PH1 => ["user-agent"; "host"] | PH2 => "user-agent" :: h2_illegal end.
 
 (* the request the server handled carries the caller's method, path, query and headers *)
 Definition head_ok (q : ereq) (w : wreq) : bool :=
@@ -64,6 +64,13 @@ Definition head_ok (q : ereq) (w : wreq) : bool :=
          | given => list_eqb String.eqb (values_of "user-agent" (w_headers w)) given
          end
   end.
+
+(* the requests the end-to-end property speaks about: an absolute URI (scheme and authority) the
+   http crate accepts, any method but CONNECT (a tunnel is not a request/response exchange) *)
+Definition e2e_req_ok (q : ereq) : bool :=
+  let r := q_req q in
+  uri_wf_b (r_uri r) && negb (String.eqb (r_method r) "CONNECT")
+  && match u_scheme (r_uri r), u_auth (r_uri r) with Some _, Some _ => true | _, _ => false end.
 
 Inductive ioutcome :=
 | IOk (p : resp)      (* complete response received *)
